@@ -16,14 +16,16 @@ import (
 )
 
 type hrun struct {
-	Harness  string
-	Params   map[string]int64
-	Panics   bool  // a panic of the code under test is a violation of this property
-	MaxPaths int64 // 0 = exhaustive; otherwise the run is reported as truncated when hit
-	Seconds  int   // wall clock cap for this harness (0 = none); hitting it is reported
-	Only     []string // when set, only these assertion ids belong to the property
-	Ignore   []string // assertion ids of this harness that belong to other properties
-	InfoOnly []string // assertion ids that are informational (never a violation)
+	Harness    string
+	Params     map[string]int64
+	Panics     bool     // a panic of the code under test is a violation of this property
+	MaxPaths   int64    // 0 = exhaustive; otherwise the run is reported as truncated when hit
+	Seconds    int      // wall clock cap for this harness (0 = none); hitting it is reported
+	Only       []string // when set, only these assertion ids belong to the property
+	Ignore     []string // assertion ids of this harness that belong to other properties
+	InfoOnly   []string // assertion ids that are informational (never a violation)
+	FreeOthers bool     // assertions outside Only are checked and counted but not assumed afterwards, so that a failing
+	// assertion of another property cannot end a path before this property's assertions are reached
 }
 
 type propCfg struct {
@@ -86,37 +88,37 @@ func matchKnown(known []knownFinding, prop string, c *Candidate) *knownFinding {
 }
 
 type harnessEvidence struct {
-	Harness        string                 `json:"harness"`
-	Params         map[string]int64       `json:"params"`
-	Paths          int64                  `json:"paths"`
-	Decisions      int64                  `json:"decisions"`
-	Instructions   int64                  `json:"ssa_instructions"`
-	Queries        int64                  `json:"queries"`
-	Sat            int64                  `json:"sat"`
-	UnsatPruned    int64                  `json:"unsat_pruned"`
-	Unknown        int64                  `json:"unknown"`
-	SolverTime     float64                `json:"solver_time_s"`
-	Wall           float64                `json:"wall_s"`
-	Ends           map[string]int64       `json:"path_ends"`
-	Cuts           map[string]int64       `json:"cuts,omitempty"`
-	EngineErrors   map[string]int64       `json:"engine_errors,omitempty"`
-	Reach          map[string]int64       `json:"reach"`
-	Assertions     map[string]*assertStat `json:"assertions"`
-	AssumeKills    int64                  `json:"assume_kills"`
-	Truncated      bool                   `json:"truncated"`
-	TracesChecked  int                    `json:"traces_validated"`
-	CutReplayed    int                    `json:"cut_paths_replayed_natively"`
-	TraceMismatch  int                    `json:"trace_mismatches"`
-	Unconfirmed    int                    `json:"unconfirmed_candidates"`
-	Confirmed      int                    `json:"confirmed_violations"`
-	Nondet         map[string]int64       `json:"nondeterminism_sources,omitempty"`
-	SolverCross    map[string]string      `json:"solver_crosscheck,omitempty"`
-	ModelVsPG      int                    `json:"sql_model_vs_pg_query_checked"`
-	ModelVsPGDisagree int                 `json:"sql_model_vs_pg_query_disagreements"`
-	DomDecided     int64                  `json:"byte_domain_decisions"`
-	DomRechecked   int64                  `json:"byte_domain_decisions_rechecked_by_z3"`
-	DomForks       int64                  `json:"byte_domain_forks"`
-	FunctionsRun   []string               `json:"functions_encoded"`
+	Harness           string                 `json:"harness"`
+	Params            map[string]int64       `json:"params"`
+	Paths             int64                  `json:"paths"`
+	Decisions         int64                  `json:"decisions"`
+	Instructions      int64                  `json:"ssa_instructions"`
+	Queries           int64                  `json:"queries"`
+	Sat               int64                  `json:"sat"`
+	UnsatPruned       int64                  `json:"unsat_pruned"`
+	Unknown           int64                  `json:"unknown"`
+	SolverTime        float64                `json:"solver_time_s"`
+	Wall              float64                `json:"wall_s"`
+	Ends              map[string]int64       `json:"path_ends"`
+	Cuts              map[string]int64       `json:"cuts,omitempty"`
+	EngineErrors      map[string]int64       `json:"engine_errors,omitempty"`
+	Reach             map[string]int64       `json:"reach"`
+	Assertions        map[string]*assertStat `json:"assertions"`
+	AssumeKills       int64                  `json:"assume_kills"`
+	Truncated         bool                   `json:"truncated"`
+	TracesChecked     int                    `json:"traces_validated"`
+	CutReplayed       int                    `json:"cut_paths_replayed_natively"`
+	TraceMismatch     int                    `json:"trace_mismatches"`
+	Unconfirmed       int                    `json:"unconfirmed_candidates"`
+	Confirmed         int                    `json:"confirmed_violations"`
+	Nondet            map[string]int64       `json:"nondeterminism_sources,omitempty"`
+	SolverCross       map[string]string      `json:"solver_crosscheck,omitempty"`
+	ModelVsPG         int                    `json:"sql_model_vs_pg_query_checked"`
+	ModelVsPGDisagree int                    `json:"sql_model_vs_pg_query_disagreements"`
+	DomDecided        int64                  `json:"byte_domain_decisions"`
+	DomRechecked      int64                  `json:"byte_domain_decisions_rechecked_by_z3"`
+	DomForks          int64                  `json:"byte_domain_forks"`
+	FunctionsRun      []string               `json:"functions_encoded"`
 }
 
 func cmdRun(args []string) int {
@@ -181,6 +183,12 @@ func cmdRun(args []string) int {
 		}
 		ex := NewExplorer(ld.prog, entry, hr.Harness, hr.Params, runtime.NumCPU())
 		ex.maxPaths = hr.MaxPaths
+		if hr.FreeOthers && len(hr.Only) > 0 {
+			ex.assumeOnly = map[string]bool{}
+			for _, id := range hr.Only {
+				ex.assumeOnly[id] = true
+			}
+		}
 		if hr.Seconds > 0 {
 			ex.deadline = time.Now().Add(time.Duration(hr.Seconds) * time.Second)
 		}
@@ -506,13 +514,13 @@ func cmdRun(args []string) int {
 			"traces_validated_against_impl": totalTraces,
 			"samples":                       samples,
 			"exhaustive":                    allExhaustive(hes),
-			"explanation": "bounded symbolic execution of the real code from go/ssa: states = feasible symbolic paths completed (each stands for every assignment of its symbolic bytes/ints that drives the code the same way), transitions = branch decisions, each admitted or pruned by an SMT verdict",
-			"bounds":            cfg.Bounds,
-			"outside_the_claim": cfg.Outside,
-			"harnesses":         hes,
-			"known_findings_hit": kh,
-			"solver":            envOr("VERIF_SOLVER", "z3-new") + " (incremental, one process per worker)",
-			"stubs":             stubList,
+			"explanation":                   "bounded symbolic execution of the real code from go/ssa: states = feasible symbolic paths completed (each stands for every assignment of its symbolic bytes/ints that drives the code the same way), transitions = branch decisions, each admitted or pruned by an SMT verdict",
+			"bounds":                        cfg.Bounds,
+			"outside_the_claim":             cfg.Outside,
+			"harnesses":                     hes,
+			"known_findings_hit":            kh,
+			"solver":                        envOr("VERIF_SOLVER", "z3-new") + " (incremental, one process per worker)",
+			"stubs":                         stubList,
 		},
 		"assumptions": []string{
 			"go/packages + go/ssa (x/tools v0.29.0) IR is faithful to the compiler",
